@@ -47,6 +47,7 @@ def setup(ctx):
     ctx.require("monitor", "old_version_attempts_server", 16)
     ctx.require("monitor", "controls_ok", 6)
     ctx.require("monitor", "successive_contexts", 12)
+    ctx.require("monitor", "wired_through_environment", 5)
     ctx.require("monitor", "new_version_ok", 8)
     ctx.require("monitor", "old_version_attempts_client", 3)
     ctx.require("monitor", "faulty_material_starts", 30)
@@ -638,8 +639,17 @@ def run(ctx):
         serve_cells = [("serve:supplied", [doc] + own_args), ("serve:supplied:--require-client-cert", [doc, "--require-client-cert"] + own_args),
                        ("serve:supplied:file-requires-client-cert", ["--config", toml_req] + own_args), ("serve:supplied:file-rule-requires-cert", ["--config", toml_rule] + own_args),
                        ("serve:auto", [doc]), ("serve:auto:--require-client-cert", [doc, "--require-client-cert"]), ("serve:auto:file-rule-requires-cert", ["--config", toml_rule])]
-        for label, args in serve_cells:
-            cap = capture_serve(args + ["--log-level", "CRITICAL"])
+        # the same through the environment (NAUYACA_CERTFILE / NAUYACA_KEYFILE / NAUYACA_DOCUMENT_ROOT), alone and
+        # next to a configuration file: values that arrive as plain strings, after the configuration object was built
+        env_own = {"NAUYACA_CERTFILE": ident.certfile, "NAUYACA_KEYFILE": ident.keyfile}
+        serve_cells = [(lab, a, None) for lab, a in serve_cells]
+        serve_cells += [("serve:supplied-through-environment", [doc], env_own), ("serve:supplied-through-environment:file-rule-requires-cert", ["--config", toml_rule], env_own),
+                        ("serve:supplied-through-environment:file-requires-client-cert", ["--config", toml_req], env_own),
+                        ("serve:docroot-and-material-through-environment", [], dict(env_own, NAUYACA_DOCUMENT_ROOT=doc)), ("serve:auto:docroot-through-environment", [], {"NAUYACA_DOCUMENT_ROOT": doc})]
+        for label, args, env in serve_cells:
+            if env:
+                ctx.count("monitor", "wired_through_environment")
+            cap = capture_serve(args + ["--log-level", "CRITICAL"], env=env)
             quiet_logs()
             leaked += re.findall(r"(?:Certificate|Key): (\S+)", cap["output"])
             if "factory" not in cap:
@@ -667,7 +677,7 @@ def run(ctx):
                 lowered.append((label + ":seclevel0", "stdlib", cap["kwargs"]["ssl"]))
             else:
                 # (a PyOpenSSL context cannot be changed once a connection was made from it: a fresh one, same command)
-                cap2 = capture_serve(args + ["--log-level", "CRITICAL"])
+                cap2 = capture_serve(args + ["--log-level", "CRITICAL"], env=env)
                 quiet_logs()
                 leaked += re.findall(r"(?:Certificate|Key): (\S+)", cap2["output"])
                 pyctx = getattr(cap2["factory"](), "ssl_context", None) if "factory" in cap2 else None
